@@ -217,10 +217,21 @@ def valid_days_run(kind, n, role, sym, env=None, states=None):
         eng = E.cur()
         for i in range(n):
             eng.assume(z3.And(z3.Int(f"tnn{i}") >= 0, z3.Int(f"tn{i}") >= 0, z3.Int(f"tnn{i}") + z3.Int(f"tn{i}") >= 1, z3.Int(f"tnn{i}") + z3.Int(f"tn{i}") <= 48))
-        df = pd.DataFrame({"observed": SymArray(obs), "temperature_not_null": SymArray(tnn), "temperature_null": SymArray(tn)}, index=idx)
+        # the temperature column as the data classes deliver it: a value unless half or fewer of the day's readings are
+        # present (rows 0-1: solver-decided; rows 2+: assumed above 50 %, to keep the path count down)
+        temp = []
+        for i in range(n):
+            half_or_less = 2 * z3.Int(f"tnn{i}") <= z3.Int(f"tnn{i}") + z3.Int(f"tn{i}")
+            if i < 2:
+                temp.append(NAN if eng.branch(half_or_less) else real(f"T{i}"))
+            else:
+                eng.assume(z3.Not(half_or_less))
+                temp.append(real(f"T{i}"))
+        df = pd.DataFrame({"observed": SymArray(obs), "temperature": SymArray(temp), "temperature_not_null": SymArray(tnn), "temperature_null": SymArray(tn)}, index=idx)
     else:
         os_ = states
         df = pd.DataFrame({"observed": [float(env.get(f"o{i}", 1.0)) if os_[i] == "val" else np.nan for i in range(n)],
+                           "temperature": [50.0 + i if 2 * int(env[f"tnn{i}"]) > int(env[f"tnn{i}"]) + int(env[f"tn{i}"]) else np.nan for i in range(n)],
                            "temperature_not_null": [int(env[f"tnn{i}"]) for i in range(n)], "temperature_null": [int(env[f"tn{i}"]) for i in range(n)]}, index=idx)
     obj = mk(sc.DailySufficiencyCriteria, data=df, is_reporting_data=(role == "reporting"))
     obj._compute_valid_meter_temperature_days()
